@@ -40,10 +40,10 @@ EXPECTED = ("accepted throw: target has exactly one handle step(exc), no wake-up
             "resumes after delivery; no loop exception-handler call; all workers finish")
 
 ENV_W = [("step", 38), ("create", 7), ("newfut", 2), ("setres", 7), ("setexc", 3), ("cancelfut", 3),
-         ("addcb", 1), ("cancel", 9), ("cscancel", 4), ("cscb", 1), ("throw", 16), ("nocancel", 3), ("pause", 2)]
-OP_W = [("s", 18), ("w", 24), ("y", 2), ("bad", 1), ("i", 20), ("a", 26), ("ret", 1), ("raise", 1)]
+         ("addcb", 1), ("cancel", 9), ("cscancel", 4), ("cscb", 1), ("throw", 16), ("nocancel", 3), ("throwcls", 3), ("pause", 2)]
+OP_W = [("s", 18), ("w", 24), ("y", 2), ("bad", 1), ("i", 20), ("icls", 2), ("a", 26), ("ret", 1), ("raise", 1)]
 INNER_W = [("create", 3), ("newfut", 1), ("setres", 7), ("setexc", 2), ("cancelfut", 3),
-           ("cancel", 10), ("cscancel", 3), ("throw", 16), ("nocancel", 2), ("obs", 3)]
+           ("cancel", 10), ("cscancel", 3), ("throw", 16), ("nocancel", 2), ("throwcls", 3), ("obs", 3)]
 
 
 def gen_case(rng):
